@@ -15,7 +15,7 @@ from fractions import Fraction as Fr
 from lib.rat import R, F, close, dev
 
 ID = "C04"
-QUICK_N = 4000
+QUICK_N = 6000
 THOROUGH_N = 60000
 QUICK_BUDGET_S = 75
 THOROUGH_BUDGET_S = 900
@@ -54,9 +54,12 @@ def _imports():
 # ------------------------------------------------------------------------------------------ generator
 
 def rid(rng, avoid=()):
+    """two-character object id; sometimes with lower-case letters (always used consistently in header and data)"""
     while True:
         s = rng.choice(B36) + rng.choice(B36)
-        if s != "00" and s not in avoid:
+        if rng.random() < 0.15:
+            s = s.lower()
+        if s != "00" and s not in avoid and s.upper() not in [a.upper() for a in avoid if a]:
             return s
 
 
@@ -140,6 +143,14 @@ def gen(rng, tier, i):
         hdr.append(f"#{rng.choice(['WAV', 'WAV', 'wav'])}{k} {v}")
     for k, v in exb.items():
         hdr.append(f"#{rng.choice(['BPM', 'BPM', 'bpm'])}{k} {v}")
+    if exb and rng.random() < 0.08:        # a table entry defined twice: the later line is the one in force
+        k = rng.choice(list(exb))
+        v = dec_text(rng).strip()
+        hdr.append(f"#BPM{k} {v}")
+        exb[k] = v
+    if wav and rng.random() < 0.08:
+        k = rng.choice(list(wav))
+        hdr.append(f"#WAV{k} again.wav")
     for _ in range(rng.choice([0, 1, 2])):
         hdr.append(rng.choice(["#GENRE test", "#PLAYER 1", "#RANK 2", "#TOTAL 300", "#STAGEFILE a.bmp", "#DIFFICULTY 4",
                                "#TITLE again", "#SUBTITLE [x]", "#BMP01 a.bmp", "#LNTYPE 1"]))
